@@ -627,18 +627,25 @@ func execRtog(a []string) string {
 		default:
 		}
 		before := n.count("tx")
+		reads := n.count("acc:IsCyclicTransmissionEnabled")
 		close(gate)
 		res := "ok"
-		if on {
+		// the toggle takes effect whatever the runner was doing: the loop comes back to its select, takes the wake-up
+		// token and reads the flag
+		if !waitFor(func() bool { return n.count("acc:IsCyclicTransmissionEnabled") > reads }) {
+			res = "TOGGLE-NOT-HANDLED"
+		} else if on {
 			if !waitFor(func() bool { return n.count("tx") >= before+4 }) {
 				res = fmt.Sprintf("ENABLE-LOST(frames-after=%d)", n.count("tx")-before)
 			}
 		} else {
-			time.Sleep(60 * time.Millisecond)
-			// the frame in flight, plus at most one already-due tick (where=tx: the frame in flight was recorded when the
-			// gate opened, so it is part of `before` only if it had been counted; allow it either way)
-			if extra := n.count("tx") - before; extra > 2 {
-				res = fmt.Sprintf("DISABLE-LOST(frames-after=%d)", extra)
+			// once the toggle is handled at most one already-due frame follows (frames sent before it is handled are
+			// not counted: the loop may serve due ticks first)
+			time.Sleep(time.Millisecond)
+			after := n.count("tx")
+			time.Sleep(40 * time.Millisecond)
+			if extra := n.count("tx") - after; extra > 1 {
+				res = fmt.Sprintf("DISABLE-LOST(frames-after-handling=%d)", extra)
 			}
 		}
 		cancel()
